@@ -176,7 +176,9 @@ pub fn exec_run_opt(script: &RunScript, keep_log: bool, keep_text: bool, watchdo
             Ok(r)
           });
           let s1 = next_seq();
-          slots[*slot] = made;
+          // a value that an equal fresh value cannot be built for (see Handle::reliable) is not
+          // kept: nothing derived from it could be compared either
+          slots[*slot] = made.filter(|h| h.reliable());
           ev2.lock().unwrap().push(EvalRec { tid: tid as u8, op: idx as u16, key: key_of(HNEW_KEY[k], args), class: out.class(), digest: out.digest(), text: clip(out.text(), keep_text), from_handle: true, rnew: None, seq: (s0, s1) });
         }
         Op::HNext { slot, n } => {
@@ -196,7 +198,7 @@ pub fn exec_run_opt(script: &RunScript, keep_log: bool, keep_text: bool, watchdo
             });
             let s1 = next_seq();
             let ok_identity = h.reliable() && made.as_ref().map(|x| x.reliable()).unwrap_or(true);
-            slots[*slot] = made;
+            slots[*slot] = if ok_identity { made } else { None };
             if ok_identity {
             ev2.lock().unwrap().push(EvalRec { tid: tid as u8, op: idx as u16, key: key_of(HSTEP_KEY[k], &base), class: out.class(), digest: out.digest(), text: clip(out.text(), keep_text), from_handle: true, rnew: None, seq: (s0, s1) });
             }
@@ -218,7 +220,7 @@ pub fn exec_run_opt(script: &RunScript, keep_log: bool, keep_text: bool, watchdo
             });
           }
           if d.is_some() {
-            slots[*to] = d;
+            slots[*to] = d.filter(|x| x.reliable());
           }
         }
         Op::HHour { from, to, k } => {
@@ -242,7 +244,7 @@ pub fn exec_run_opt(script: &RunScript, keep_log: bool, keep_text: bool, watchdo
             }
           }
           if made.is_some() {
-            slots[*to] = made;
+            slots[*to] = made.filter(|x| x.reliable());
           }
         }
         Op::HCmp { a, b } => {
